@@ -589,8 +589,14 @@ func c17Suite(r *Result, rng *rand.Rand, tier string) {
 	}
 	// which repairs of callbacks.go the model follows (regenerated facts, extract/gen_c17.go): the model of the
 	// tree under check is Proc.runR treeRepairs; the flags are only reported here, the comparison is the same
+	guardInTree := false
 	if fl, err := AskLean([][]interface{}{{"cb.flags"}}); err == nil && len(fl) == 1 {
 		r.H("model-follows-tree", canonRaw(fl[0]))
+		var f struct {
+			DepthGuard bool `json:"depthGuard"`
+		}
+		_ = json.Unmarshal(fl[0], &f)
+		guardInTree = f.DepthGuard
 	}
 	// real code in crash-isolating children, sharded
 	nw := 12
@@ -667,7 +673,7 @@ func c17Suite(r *Result, rng *rand.Rand, tier string) {
 		// the depth guard against the unguarded recursion: calls on which the unguarded model terminates although
 		// it recurses deeper than the guard's bound 2n+2 (the only tables on which the guard changes a result;
 		// C17_guard_conservative / C17_guard_error_iff_beyond_bound) -- and those among them without an error
-		if len(m.Gap) == 2 {
+		if len(m.Gap) == 2 && guardInTree {
 			if m.Gap[0] > 0 {
 				r.H("guard-vs-unguarded", "terminating-recursion-deeper-than-2n+2")
 				r.Note("unguarded sortCallback terminates deeper than 2n+2 on %s (%d calls, %d without error)", canon(c), m.Gap[0], m.Gap[1])
